@@ -95,7 +95,7 @@ type c5node struct {
 	rec  *bytes.Buffer // failing device: what it was handed
 	// hook bookkeeping: message -> calls
 	hookCalls map[string]int
-	nHooks    int // hook functions registered by this node (each fires once per accepted entry)
+	nHooks    int            // hook functions registered by this node (each fires once per accepted entry)
 	hookWho   map[string]int // per message: bit i set when the i-th hook of the registration fired
 	// lazy-with nodes: how often their deferred fields were marshaled
 	lazyMarsh int
